@@ -65,6 +65,10 @@ Not decided here: ConvertLineProgram::{new, convert_file, convert_string, read_s
   operand beyond `self.address == pend` at the test (the `take()` in between is vstd's Option::take); the trace-level
   statement "rows(read_row*) == rows(read::LineRows) minus tombstoned sequences"; write::LineProgram::add_file's
   documented panics (empty / NUL-containing file name) reachable from DefineFile through convert_file.
+
+FINDING F24 (added by the main session): `add_file` now carries its documented panics as the precondition [C01:add-file-name-nonempty];
+  the call in read_row cannot establish it (DW_LNE_define_file "" in a DWARF <= 4 program: native/src/bin/f_conv_6.rs panics in add_file).
+  Listed in known_findings.json for C01 and C12; the obligation stays live.
 """
 from lib import *
 from batches import core
@@ -108,6 +112,11 @@ LINE_MODELS = '''
 #[derive(Debug)]
 #[verifier::external_body]
 pub struct LineString { model: () }
+impl LineString {
+    /// `LineString::String(v)` with an empty `v` / with a NUL byte in `v` (the two cases `add_file` documents as panics)
+    pub uninterp spec fn is_empty_string(&self) -> bool;
+    pub uninterp spec fn has_nul(&self) -> bool;
+}
 #[derive(Debug)]
 #[verifier::external_body]
 pub struct FileInfo { model: () }
@@ -175,6 +184,12 @@ pub use self::convert::*;''')
     im.extbody(['add_file'])
     im.clean()
     im.own(OWN)
+    # the documented panics of add_file ("Panics if 'file' is empty or contains a null byte": two assert!s, R-ASSERT would make them
+    # obligations if the body were extracted) as its precondition: C01 requires that conversion of ANY section bytes does not panic,
+    # so every call reachable from section bytes must establish it.  read_row does not (finding F24: DW_LNE_define_file "" in a
+    # DWARF <= 4 program, native/src/bin/f_conv_6.rs).
+    im.insert_members('    pub closed spec fn enc_v(&self) -> Encoding { self.encoding }')
+    im.splice('add_file', requires=['[C01:add-file-name-nonempty] (old(self).enc_v().version <= 4 ==> !file.is_empty_string()) && !file.has_nul()'])
     sk.add(M, im)
 
 
